@@ -30,13 +30,17 @@ fn expected_name(comm: &[u8]) -> Option<(String, String)> {
 }
 
 pub fn judge(p: &crate::puppet::Puppet, bytes: &[u8], failpoint_all: bool) -> Vec<(String, String)> {
+    judge_pid(p.pid, bytes, failpoint_all)
+}
+
+pub fn judge_pid(pid: i32, bytes: &[u8], failpoint_all: bool) -> Vec<(String, String)> {
     let d = Dump::parse(bytes);
     let mut fails = Vec::new();
     let listed: Vec<u32> = d.threads.iter().map(|t| t.tid).collect();
     let mut expected: Vec<(u32, (String, String))> = Vec::new();
     if !failpoint_all {
         for t in &listed {
-            if let Some(c) = p.comm(*t as i32) {
+            if let Ok(c) = std::fs::read(format!("/proc/{pid}/task/{t}/comm")) {
                 if let Some(n) = expected_name(&c) {
                     expected.push((*t, n));
                 }
